@@ -1,3 +1,4 @@
+import PotasscoVerif.Model.AspifOut
 /-
   Model of `Potassco::StringBuilder` (potassco/string_convert.h:310-389, src/string_convert.cpp:284-442).
 
@@ -117,12 +118,8 @@ def SB.resize (b : SB) (n c : Nat) : Option SB :=
   else if n < used then some (({ b with text := b.text.take n }).store n 0)
   else some b
 
-/-- decimal text of `append(int64/uint64)` -/
-def digitsAux : Nat → Nat → List Nat → List Nat
-  | 0, _, acc => acc
-  | f + 1, n, acc => if n < 10 then (48 + n) :: acc else digitsAux f (n / 10) ((48 + n % 10) :: acc)
-def numText (x : Int) : List Nat :=
-  if x < 0 then 45 :: digitsAux 21 x.natAbs [] else digitsAux 21 x.toNat []
+/-- decimal text of `append(int64/uint64)` (`append_`: digit loop into `temp[22]`, '-' for negative values). -/
+def numText (x : Int) : List Nat := PotasscoVerif.AspifOut.printInt x
 
 inductive Op where
   | append (s : List Nat)
